@@ -201,7 +201,9 @@ def run(ctx):
         bounds[name] = {"deviation_bound": bound, "schedules": st["executions"], "per_depth": st["per_depth"], "decision_points": st["decision_points"]}
         if stateful_here:
             # stateful exhaustive search: every interleaving of visible operations, states matched by per-task traces
-            ss = explore_stateful(ctx.pool, base, on_exec, max_runs=6000 if ntasks == 2 else 40000)
+            # measured: s6 reaches its fixpoint after 61643 executions (49801 states, 436 s on 16 cores); the twenty s7 sharing patterns would
+            # need about as much each, so they are cut at 6000 executions (reported under caps_hit; their deviation-bounded search above is complete)
+            ss = explore_stateful(ctx.pool, base, on_exec, max_runs=6000 if (ntasks == 2 or name.startswith("s7-")) else 120000)
             if ss["capped"]:
                 res.caps_hit.append("%s: stateful search capped at %d executions" % (name, ss["executions"]))
             bounds[name]["stateful"] = {"states": ss["states"], "transitions": ss["transitions"], "executions": ss["executions"], "fixpoint": not ss["capped"]}
